@@ -8,4 +8,6 @@ go build -o bin/vcheck ./cmd/vcheck
 go build -o bin/vinstr ./cmd/vinstr
 # warm the build cache with one instrumented worker build and self-test it
 ./bin/vcheck SELFTEST --tier quick
+# the repository's own tests must pass on the rewritten sources (validates the rewriter)
+./bin/vcheck CONFORMANCE --tier quick
 echo "setup ok"
